@@ -426,16 +426,21 @@ def starts_with_minus(n):
 OPERAND_SLOTS = {"arith": (2, 3), "basic": (2, 3), "neg": (1,), "isnull": (1,), "notnull": (1,), "between": (1, 2, 3), "in": (1,)}
 
 
+def _kind_at(n, i):
+    x = n[i] if i < len(n) else None
+    return x[0] if isinstance(x, list) and x and isinstance(x[0], str) else None
+
+
 def has_not_operand(n):
     """a NOT term sits directly in an operand slot of an operator or predicate somewhere in n"""
-    if any(n[i][0] == "not" for i in OPERAND_SLOTS.get(n[0], ())):
+    if any(_kind_at(n, i) == "not" for i in OPERAND_SLOTS.get(n[0], ())):
         return True
     return any(has_not_operand(c) for c in children(n))
 
 
 def has_star_operand(n):
     """the star used as an operand of an operator or predicate (not a well-typed tree: outside the property)"""
-    if any(n[i][0] == "star" for i in OPERAND_SLOTS.get(n[0], ())):
+    if any(_kind_at(n, i) == "star" for i in OPERAND_SLOTS.get(n[0], ())):
         return True
     return any(has_star_operand(c) for c in children(n))
 
@@ -445,7 +450,7 @@ def classify(n):
     k = n[0]
     ch = children(n)
     labs = [label(c) for c in ch]
-    if any(n[i][0] == "not" for i in OPERAND_SLOTS.get(k, ())):
+    if any(_kind_at(n, i) == "not" for i in OPERAND_SLOTS.get(k, ())):
         return "not-as-operand"
     if k == "neg":
         if starts_with_minus(ch[0]):
@@ -495,7 +500,11 @@ def _raw_leaf_has_intro(t):
 
 def judge(case, text):
     t = case["t"]
-    if has_star_operand(t):
+    try:
+        star = has_star_operand(t)
+    except Exception:      # shapes outside the judged language (sub-query containers ...): judged below or not at all
+        star = False
+    if star:
         return {"verdict": "not-judged", "why": "star as an operand: not a well-typed expression tree"}
     # lexical clause on the real text (any tree, any context): a comment introducer outside quoted regions
     if not text.startswith("!") and has_comment_intro(text) and not _raw_leaf_has_intro(t):
